@@ -5,4 +5,14 @@ CHECKS = {
   "text": "Every operator of the fixed-width integer types is compared with Python's unbounded arithmetic reduced into the expected type: completely for 8-bit x 8-bit pairs and for the boundary grid over all 11 types and type pairs, by seeded random search elsewhere. Exploration, not proof: wide values are sampled.",
   "note": "Trusted: Python integer arithmetic; the expected-type rule written from the property statement (wider type wins, plain int keeps the fixed type). Shift counts/exponents limited to 0..256, zero divisors excluded.",
  },
+ "C05": {
+  "technique": "Hypothesis-generated well-typed IR trees + one template per rewrite rule + exhaustive 2^16-valuation sweeps of 8-bit rule instances, judged by a reference IR interpreter",
+  "text": "expr_simp is run on generated expressions (random trees at widths 1..64, an instance generator for each of ~50 rewrite-rule shapes including near-equal operands, and 8-bit two-variable instances swept over all 65536 valuations); width and value are compared with an independent bit-vector interpreter on 16 valuations per tree, termination as bounded rewriting work. Failures are reduced to a minimal generalised shape that names the rule.",
+  "note": "Trusted: vlib/irsem.py (written from the operator meanings; flat memory, segment not part of the address; uninterpreted operators get a congruence-respecting pseudo-random function). Rotates only at widths 8/16/32. Values are sampled except in the 8-bit sweeps.",
+ },
+ "C15": {
+  "technique": "Hypothesis-generated expression scripts with one-field mutations and replacement maps; algebraic laws + independent substitute() + reference interpreter",
+  "text": "For generated expressions of all node kinds: independent rebuilds must be equal with equal hashes; any one-field mutation that still compares equal must have equal hash, width and value; copy() must be equal and share no node; visit(identity) must be equal; replace_expr must agree structurally and in value with an independent script-level substitution; canonize() must preserve value and be idempotent.",
+  "note": "Trusted: vlib/irsem.py for values; replacement values range over fresh identifiers so simultaneous and bottom-up substitution coincide; the destination of an assignment is never a key.",
+ },
 }
